@@ -225,7 +225,7 @@ def gen_history(rng, tier):
         q = rng.sample(range(n), rng.randint(1, min(2, n)))
         rest = [v for v in range(n) if v not in q]
         ev = rng.sample(rest, min(len(rest), rng.choice([0, 1, 1, 2])))
-        kind = rng.choice(["query", "query", "query", "map", "virtual", "invalid"])
+        kind = rng.choice(["query", "query", "query", "map", "virtual", "invalid", "calibration"])
         item = {"kind": kind, "q": q, "ev": [[v, rng.randrange(case["card"][v])] for v in ev]}
         if kind == "virtual":
             cand = [v for v in range(n) if v not in ev]
@@ -233,9 +233,11 @@ def gen_history(rng, tier):
             item["virt"] = [[v, [rs(Fraction(rng.randint(1, 10), 10)) for _ in range(case["card"][v])]]]
         if kind == "invalid":
             item["bad"] = rng.choice(["overlap", "unknown_var", "unknown_state"])
+        if kind == "calibration":
+            item["which"] = rng.choice(["calibrate", "max_calibrate", "max_calibrate"])
         qs.append(item)
     case["queries"] = qs
-    case["engine"] = rng.choice(["ve", "ve", "bp"])
+    case["engine"] = rng.choice(["ve", "ve", "bp", "bp"])
     return case
 
 
@@ -257,6 +259,14 @@ def run_history(case, drv):
         qv = [pn[v] for v in q]
         evidence = {pn[v]: gen.lab(labels[v][k]) for v, k in ev}
         kind = item["kind"]
+        if kind == "calibration":
+            # public calls that leave beliefs behind on the engine; later answers must not depend on them
+            if case["engine"] == "bp":
+                try:
+                    getattr(shared, item["which"])()
+                except Exception as e:
+                    return fail(f"{item['which']}() on the shared engine raised {type(e).__name__}: {e}", engine=case["engine"])
+            continue
         if kind == "invalid":
             bad_ev = dict(evidence)
             if item["bad"] == "overlap":
@@ -411,8 +421,81 @@ def run_meta(case, drv):
     return ok(nontrivial=bool(case["edges"]), **tags)
 
 
+# ----------------------------------------------------------------------------- factor operations: numpy vs torch
+def gen_backend_ops(rng, tier):
+    n = rng.randint(2, 4)
+    card = [rng.choice([2, 2, 3]) for _ in range(n)]
+    names = gen.node_names(rng, n, "str")
+
+    def fac():
+        k = rng.randint(1, min(3, n))
+        sc = rng.sample(range(n), k)
+        size = 1
+        for v in sc:
+            size *= card[v]
+        # real-valued tables: negative entries and exact zeros are legal factor values
+        vals = [rs(Fraction(rng.choice([0, 0, 1, 2, 3, -1, -2, 5]), rng.choice([1, 2, 4]))) for _ in range(size)]
+        return {"scope": sc, "vals": vals}
+    return {"nodes": names, "card": card, "labels": [list(range(c)) for c in card], "f": fac(), "g": fac(),
+            "op": rng.choice(["divide", "divide", "product", "sum", "marginalize", "maximize", "reduce"])}
+
+
+def run_backend_ops(case, drv):
+    """the same operation on the same tables under the numpy and the torch backend: identical scopes and values, including the sign of
+    infinities produced by a division by zero and the 0/0 = 0 convention"""
+    import numpy as np
+    from pgmpy.global_vars import config
+    from pgmpy.utils import compat_fns
+    names, card, labels = case["nodes"], case["card"], case["labels"]
+    op = case["op"]
+
+    def compute():
+        f = gen.factor_to_pgmpy(names, card, labels, case["f"])
+        g = gen.factor_to_pgmpy(names, card, labels, case["g"])
+        if op in ("divide", "sum", "product"):
+            if op == "divide" and not set(g.variables) <= set(f.variables):
+                f, g = (g, f) if set(f.variables) <= set(g.variables) else (f.product(g, inplace=False), g)
+            r = getattr(f, op)(g, inplace=False)
+        elif op in ("marginalize", "maximize"):
+            if len(f.variables) < 2:
+                return None
+            r = getattr(f, op)([f.variables[0]], inplace=False)
+        else:
+            if len(f.variables) < 2:
+                return None
+            r = f.reduce([(f.variables[0], 0)], inplace=False)
+        vals = np.asarray(compat_fns.to_numpy(r.values), dtype=float)
+        order = sorted(range(len(r.variables)), key=lambda i: str(r.variables[i]))
+        return [str(r.variables[i]) for i in order], [int(r.cardinality[i]) for i in order], np.transpose(vals, order) if vals.ndim else vals
+    tags = dict(op=op)
+    try:
+        with np.errstate(all="ignore"):
+            a = compute()
+            config.set_backend("torch")
+            try:
+                b = compute()
+            finally:
+                config.set_backend("numpy")
+    except Exception as e:
+        config.set_backend("numpy")
+        return fail(f"{op} raised {type(e).__name__}: {e}", **tags)
+    if a is None or b is None:
+        return skip("single-variable operand")
+    if a[0] != b[0] or a[1] != b[1]:
+        return fail(f"{op}: scope under numpy {a[0]} {a[1]}, under torch {b[0]} {b[1]}", **tags)
+    va, vb = a[2], b[2]
+    if va.shape != vb.shape:
+        return fail(f"{op}: shapes differ between the backends", **tags)
+    for x, y in zip(va.reshape(-1), vb.reshape(-1)):
+        if np.isnan(x) != np.isnan(y) or np.isinf(x) != np.isinf(y) or (np.isinf(x) and np.sign(x) != np.sign(y)) or \
+                (np.isfinite(x) and abs(x - y) > 1e-5 * max(1.0, abs(x))):
+            return fail(f"{op}: numpy gives {va.reshape(-1).tolist()}, torch gives {vb.reshape(-1).tolist()}", **tags)
+    return ok(nontrivial=True, **tags)
+
+
 STREAMS = [
     Stream("purity", gen_purity, run_purity, quick=250, thorough=2500),
     Stream("engine_history", gen_history, run_history, quick=500, thorough=5000),
     Stream("metamorphic", gen_meta, run_meta, quick=700, thorough=8000),
+    Stream("backend_ops", gen_backend_ops, run_backend_ops, quick=500, thorough=5000),
 ]
